@@ -118,8 +118,8 @@ func (r *Router) GetRule(db, table string) Rule {
 	}
 	rule := r.rules[db][table]
 	if rule == nil {
-		//set the database of default rule
-		r.defaultRule.(*BaseRule).db = db
+		// the default rule is shared by every session of the namespace and must not be written here:
+		// its db is never read (the default rule has no sub-tables), callers use their own db
 		return r.defaultRule
 	} else {
 		return rule
